@@ -66,6 +66,11 @@ CLAIMS = {
         text="Machine-checked for every generated instruction-emitting method (minus recorded findings): opcode has a grammar entry; result type/id exactly when the entry has one; operand slots equal the entry's operands kind by kind, quantifier by quantifier, in grammar order and fed by the parameters in signature order (a swap of two equal-kinded arguments fails); parameters of parameterised kinds only via a single trailing additional_params; the sink (section / block / block end) is where the loader files that opcode; the Builder ends a block for exactly the terminator opcodes. End-to-end equality of a built module with its assemble-then-load image is C06_partial: decided by the differential (every method once in a minimal complete history + seeded complete histories) on top of C05/C12/C13/C15.",
         note="Trusted: Lean kernel + standard axioms; translator builder.py (every token of 1128 methods, validated by calling each method in the harness and comparing with the model's prediction); hand models; ArgsConform/complete-history hypotheses as stated in the evidence; known findings: type_struct_continued_intel(_id), begin_block_no_label.",
         ref="DESIGN.md §8 C06"),
+    "C17": dict(
+        technique="Lean 4 theorems over two independently generated copies of the per-value parameter tables (parser: per enumerant/bit; reflection: grouped), translated on every run: sequence equality for every enumerant, permutation for EVERY bit pattern (generic lemma + kernel-checked table facts), pinned-snapshot equality, id kinds, single-word rewrite; differential reflect/idmut channels",
+        text="Machine-checked: for every enumerant of ExecutionMode and Decoration the reflected extra operands expand to exactly the parser's element sequence; for every natural number as bit pattern of the four parameterised masks the reflected operands are a permutation of what the parser consumes; parameters, required capabilities (by value) and extensions equal the pinned snapshot; id_ref_any(_mut) answers exactly for the three spirv::Word variants; replacing a one-word operand changes exactly the corresponding assembled word; every From<T> builds the variant with payload T that the matching unwrap returns.",
+        note="Trusted: Lean kernel + standard axioms; translators operand_reflect.py / parse_operand.py (every token); differential harness probing every enumerant of every enum variant and every mask constant + combinations; pinned snapshot as the Khronos reference. Known finding: BankBitsINTEL's parameter is variadic in the grammar/reflection but the parser reads one literal.",
+        ref="DESIGN.md §8 C17"),
 }
 
 
